@@ -372,6 +372,11 @@ impl<'a> Interpreter<'a> {
                                         value: obj,
                                     }),
                                     Err(_) => {
+                                        // may be a function bound at run time
+                                        if crate::utils::clock::folding_constants() {
+                                            return Err(CelError::attribute("obj", ident.as_str()));
+                                        }
+
                                         stack.push(
                                             CelValue::from_err(CelError::attribute(
                                                 "obj",
@@ -410,6 +415,11 @@ impl<'a> Interpreter<'a> {
                                             value: obj,
                                         });
                                     } else {
+                                        // may be a function bound at run time
+                                        if crate::utils::clock::folding_constants() {
+                                            return Err(CelError::attribute("obj", ident.as_str()));
+                                        }
+
                                         stack.push(
                                             CelValue::from_err(CelError::attribute(
                                                 "obj",
@@ -481,6 +491,17 @@ impl<'a> Interpreter<'a> {
                                         let arg_values = self.resolve_args(args)?;
                                         stack.push_val(construct_type(type_name, arg_values));
                                     } else {
+                                        // The compiler folds with its own function
+                                        // table (no `has`, `coalesce` or caller-bound
+                                        // functions): a name it cannot call is a
+                                        // run-time input, so the folding stops.
+                                        if crate::utils::clock::folding_constants() {
+                                            return Err(CelError::runtime(&format!(
+                                                "{} is not callable",
+                                                func_name
+                                            )));
+                                        }
+
                                         stack.push_val(CelValue::from_err(CelError::runtime(
                                             &format!("{} is not callable", func_name),
                                         )));
